@@ -19,8 +19,10 @@ func convertCCFB(ts time.Time, feedback *rtcp.CCFeedbackReport) (time.Duration, 
 	latestArrival := time.Time{}
 	foundLatestArrival := false
 	for _, rb := range feedback.ReportBlocks {
-		var la time.Time
-		la, result[rb.MediaSSRC] = convertMetricBlock(referenceTime, rb.BeginSequence, rb.MetricBlocks)
+		// A feedback packet may carry more than one report block for an SSRC:
+		// keep the acknowledgements of all of them.
+		la, acks := convertMetricBlock(referenceTime, rb.BeginSequence, rb.MetricBlocks)
+		result[rb.MediaSSRC] = append(result[rb.MediaSSRC], acks...)
 		if la.After(latestArrival) {
 			latestArrival = la
 			foundLatestArrival = true
